@@ -57,6 +57,12 @@ pub trait Sys: Sync {
     fn final_check(&self, _w: &mut Self::W, _mon: &mut Self::Mon, _verbose: bool) -> Option<(&'static str, String)> {
         None
     }
+    /// Classes of recorded findings (known_findings.json) of this scenario: a state showing one is
+    /// reported (as KNOWN-FINDING by the front end) and explored further like any other state, so
+    /// that other violations behind it are still found.
+    fn tolerate(&self, _class: &str) -> bool {
+        false
+    }
 }
 
 impl<T: Scenario> Sys for T {
@@ -130,6 +136,8 @@ pub struct Replayed<W, M> {
     pub world: W,
     pub mon: M,
     pub violation: Option<(&'static str, String)>,
+    /// A tolerated (recorded) finding shown by the state after the LAST event of the history.
+    pub tolerated: Option<(&'static str, String)>,
     /// Choice points of the last event: (arity, digit taken, group, group is a shuffle).
     pub choice_log: Vec<(usize, usize, usize, bool)>,
 }
@@ -137,6 +145,7 @@ pub struct Replayed<W, M> {
 pub fn replay<S: Sys>(s: &S, dir: &PathBuf, hist: &[Step], verbose: bool) -> Replayed<S::W, S::Mon> {
     let (mut world, mut mon) = s.build(dir);
     let mut violation = s.check(&world, &mut mon, None);
+    let mut tolerated = None;
     let mut choice_log = vec![];
     if verbose {
         println!("-- initial state: {}", s.key(&world, &mon));
@@ -145,16 +154,24 @@ pub fn replay<S: Sys>(s: &S, dir: &PathBuf, hist: &[Step], verbose: bool) -> Rep
         for (sym, digits) in hist {
             choice_log = s.apply(&mut world, &mon, sym, digits, verbose);
             violation = s.check(&world, &mut mon, Some(sym));
+            tolerated = None;
             if verbose {
                 println!("   state: {}", s.key(&world, &mon));
                 println!("   situations: {:?}", s.tags(&world, &mon));
             }
-            if violation.is_some() {
+            if let Some((class, why)) = &violation {
+                if s.tolerate(class) {
+                    if verbose {
+                        println!("   recorded finding shown here: {} {}", class, why);
+                    }
+                    tolerated = violation.take();
+                    continue;
+                }
                 break;
             }
         }
     }
-    Replayed { world, mon, violation, choice_log }
+    Replayed { world, mon, violation, tolerated, choice_log }
 }
 
 #[derive(Default, Clone, Debug)]
@@ -201,6 +218,7 @@ struct Child {
     key: String,
     enabled: Vec<String>,
     violation: Option<(&'static str, String)>,
+    tolerated: Option<(&'static str, String)>,
 }
 
 fn key_hash(k: &str) -> u128 {
@@ -256,7 +274,8 @@ fn expand_child<S: Sys>(s: &S, dir: &PathBuf, hist: &[Step], sym: &str, depth: u
             if violation.is_none() && !s.dead(&r.world) && (enabled.is_empty() || depth + 1 >= max_depth) {
                 violation = s.final_check(&mut r.world, &mut r.mon, false);
             }
-            out.push(Child { key, tags, hist: h, enabled, violation });
+            let tolerated = r.tolerated.take();
+            out.push(Child { key, tags, hist: h, enabled, violation, tolerated });
             return;
         }
         let (start, len, is_shuffle) = groups[group_idx];
@@ -365,6 +384,9 @@ pub fn bfs<S: Sys>(ctx: &Ctx, s: &S, max_depth: usize, det_every: u64) -> Stats 
                     stats.violations += 1;
                     ctx.violation(class, format!("[{}] after {:?}: {}", scen, c.hist.iter().map(|h| h.0.as_str()).collect::<Vec<_>>(), why), json!({"scenario": scen, "history": hist_json(&c.hist)}));
                     continue;
+                }
+                if let Some((class, why)) = &c.tolerated {
+                    ctx.violation(class, format!("[{}] after {:?}: {}", scen, c.hist.iter().map(|h| h.0.as_str()).collect::<Vec<_>>(), why), json!({"scenario": scen, "history": hist_json(&c.hist)}));
                 }
                 for t in &c.tags {
                     *stats.tags.entry(t.to_string()).or_default() += 1;
